@@ -67,13 +67,16 @@ theorem addHeaders_single (env : Env L) (s : Node L) (v : Bool) (h : Header)
       | none => left; simp [happ, hv]
 
 theorem storeBlock_err (env : Env L) (s s' : Node L) (b : Block) (e : Err)
-    (h : storeBlock env s b = (s', some e)) : s' = s ∧ e = .store := by
+    (h : storeBlock env s b = (s', some e)) :
+    (s' = s ∨ ((∃ l', env.apply s.ledger b = some l') ∧ s' = { s with ledger := env.spoil s.ledger b })) ∧
+      e = .store := by
   unfold storeBlock at h
   split at h
-  · cases h; exact ⟨rfl, rfl⟩
-  · split at h
+  · cases h; exact ⟨Or.inl rfl, rfl⟩
+  · rename_i l' hl
+    split at h
     · cases h
-    · cases h; exact ⟨rfl, rfl⟩
+    · cases h; exact ⟨Or.inr ⟨⟨l', hl⟩, rfl⟩, rfl⟩
 
 theorem storeBlock_ok (env : Env L) (s s' : Node L) (b : Block)
     (h : storeBlock env s b = (s', none)) :
@@ -144,16 +147,22 @@ theorem headerStep_spec (env : Env L) (s s1 : Node L) (b : Block) (r : Option Er
               exact ⟨rfl, hi', rfl, kh, hk, hh', Or.inr (Or.inr ⟨prev, hp, hsg⟩)⟩
             · cases h; left; exact ⟨_, rfl, rfl⟩
 
+/-- a failing body step leaves the node as it was, except that a storeBlock failure after the
+execution of the block leaves a spoiled ledger behind -/
 theorem bodyStep_err (env : Env L) (s s' : Node L) (b : Block) (e : Err)
-    (h : bodyStep env s b = (s', some e)) : s' = s := by
+    (h : bodyStep env s b = (s', some e)) :
+    s' = s ∨ (e = .store ∧ (∃ l', env.apply s.ledger b = some l') ∧ s' = { s with ledger := env.spoil s.ledger b }) := by
   unfold bodyStep at h
   split at h
-  · cases h; rfl
+  · cases h; exact Or.inl rfl
   · split at h
-    · cases h; rfl
+    · cases h; exact Or.inl rfl
     · split at h
-      · cases h; rfl
-      · exact (storeBlock_err env s s' b e h).1
+      · cases h; exact Or.inl rfl
+      · obtain ⟨h1, h2⟩ := storeBlock_err env s s' b e h
+        rcases h1 with h1 | ⟨h1, h3⟩
+        · exact Or.inl h1
+        · exact Or.inr ⟨h2, h1, h3⟩
 
 /-- headers are stored under their index -/
 def Indexed (hs : List Header) : Prop := ∀ (i : Nat) (h : Header), hs[i]? = some h → h.index = i
@@ -179,31 +188,43 @@ theorem indexed_last (hs : List Header) (hi : Indexed hs) (last : Header) (hm : 
   have : hs.length - 1 = last.index := by omega
   rw [this]; exact h1
 
+/-- the ledger after a rejected block: untouched, unless storeBlock executed the block and failed afterwards -/
+def LedgerAfterReject (env : Env L) (s s' : Node L) (b : Block) (e : Err) : Prop :=
+  s'.ledger = s.ledger ∨
+    (e = .store ∧ (∃ l', env.apply s.ledger b = some l') ∧ s'.ledger = env.spoil s.ledger b)
+
 theorem reject_changes_nothing_aux (env : Env L) (s s' : Node L) (b : Block) (e : Err)
     (hne : s.headers ≠ []) (hix : Indexed s.headers)
     (h : addBlock env s b = (s', some e)) :
-    s'.cfg = s.cfg ∧ s'.blockHeight = s.blockHeight ∧ s'.ledger = s.ledger ∧ s'.pool = s.pool ∧
+    s'.cfg = s.cfg ∧ s'.blockHeight = s.blockHeight ∧ LedgerAfterReject env s s' b e ∧ s'.pool = s.pool ∧
     (s'.headers = s.headers ∨
       (s'.headers = s.headers ++ [b.hdr] ∧ b.hdr.index = s.headerHeight + 1 ∧
         (s.cfg.skip = false → ∃ last, s.headers.getLast? = some last ∧ LinkOK env last b.hdr))) := by
   unfold addBlock at h
   split at h
-  · cases h; exact ⟨rfl, rfl, rfl, rfl, Or.inl rfl⟩
+  · cases h; exact ⟨rfl, rfl, Or.inl rfl, rfl, Or.inl rfl⟩
   split at h
-  · cases h; exact ⟨rfl, rfl, rfl, rfl, Or.inl rfl⟩
+  · cases h; exact ⟨rfl, rfl, Or.inl rfl, rfl, Or.inl rfl⟩
   split at h
   · rename_i s1 e1 hs
     cases h
     rcases headerStep_spec env s s' b (some e) hne hs with ⟨_, _, rfl⟩ | ⟨hr, _⟩ | ⟨hr, _⟩
-    · exact ⟨rfl, rfl, rfl, rfl, Or.inl rfl⟩
+    · exact ⟨rfl, rfl, Or.inl rfl, rfl, Or.inl rfl⟩
     · cases hr
     · cases hr
   · rename_i s1 hs
     have hb := bodyStep_err env s1 s' b e h
-    subst hb
-    rcases headerStep_spec env s s' b none hne hs with ⟨_, hr, _⟩ | ⟨_, hi, rfl, hv⟩ | ⟨_, _, rfl, _⟩
+    -- s' agrees with s1 on everything but possibly the ledger
+    have hparts : s'.cfg = s1.cfg ∧ s'.blockHeight = s1.blockHeight ∧ s'.pool = s1.pool ∧ s'.headers = s1.headers ∧
+        (s'.ledger = s1.ledger ∨ (e = .store ∧ (∃ l', env.apply s1.ledger b = some l') ∧ s'.ledger = env.spoil s1.ledger b)) := by
+      rcases hb with rfl | ⟨he, hl, rfl⟩
+      · exact ⟨rfl, rfl, rfl, rfl, Or.inl rfl⟩
+      · exact ⟨rfl, rfl, rfl, rfl, Or.inr ⟨he, hl, rfl⟩⟩
+    obtain ⟨p1, p2, p3, p4, p5⟩ := hparts
+    rcases headerStep_spec env s s1 b none hne hs with ⟨_, hr, _⟩ | ⟨_, hi, hs1, hv⟩ | ⟨_, _, hs1, _⟩
     · cases hr
-    · refine ⟨rfl, rfl, rfl, rfl, Or.inr ⟨rfl, hi, ?_⟩⟩
+    · subst hs1
+      refine ⟨p1, p2, p5, p3, Or.inr ⟨p4, hi, ?_⟩⟩
       intro hsk
       obtain ⟨last, hl, hv⟩ := hv hsk
       obtain ⟨hm, _⟩ := lookup_mem s _ last hl
@@ -217,8 +238,7 @@ theorem reject_changes_nothing_aux (env : Env L) (s s' : Node L) (b : Block) (e 
         | cons a l => simp
       have := hlk.2.1
       omega
-    · exact ⟨rfl, rfl, rfl, rfl, Or.inl rfl⟩
-
-
+    · subst hs1
+      exact ⟨p1, p2, p5, p3, Or.inl p4⟩
 
 end NeoModel.AddBlock
